@@ -6,6 +6,11 @@
                 (condition language) and token stream;
      - CBubble: the real `Bubble` and [Bubble.bubble_cl];
      - CCats:   `Token::category()` bits and the generated [category];
+     - CYr:     the real `yr fmt` binary on temporary files (in place and
+                --check, several files per invocation) against the model of
+                cli/src/commands/fmt.rs: the file afterwards is the library's
+                output byte for byte iff the library says modified, otherwise
+                untouched (not even rewritten); exit status;
      - CStage:  the real CommentProcessor / FormatHexPatterns / Align /
                 AddIndentation / RemoveTrailingSpaces and the models of
                 Fmt/Stages.v, token for token.
@@ -13,7 +18,7 @@
      - CFmt:    one run of `yara_x_fmt::Formatter::format` under one option
                 combination. *)
 From Coq Require Import List NArith ZArith Bool.
-From YV Require Import Fmt.Tokens Gen.FmtCats Fmt.Processor Fmt.Bubble Fmt.Stages.
+From YV Require Import Fmt.Tokens Gen.FmtCats Fmt.Processor Fmt.Bubble Fmt.Stages Fmt.Pipeline Gen.FmtRules.
 Import ListNotations.
 
 (* how a run of the real formatter ended *)
@@ -52,7 +57,50 @@ Definition run_hstage (h : hstage) (ts : list token) : option (list token) :=
   | HTrailing => Some (trailing_spaces ts)
   end.
 
+(* one file given to `yr fmt`: its content, what the library does with it under
+   the same options (outcome, output), its content afterwards and whether its
+   modification time changed *)
+Record yr_file := mkYrFile {
+  y_in : list N; y_lib : fmt_outcome; y_lib_out : list N; y_after : list N; y_rewritten : bool }.
+
+(* cli/src/commands/fmt.rs as coded: files in argument order; a library error
+   stops the command (files before it stay processed); without --check a file
+   the library reports as modified is overwritten with the library's output
+   (through a truncating handle or not: Gen/FmtRules.v, yr_fmt_truncates),
+   other files are not touched; exit status 0 iff nothing was modified and
+   nothing failed, 1 for modified/error, anything else (>= 2) for a crash *)
+Fixpoint yr_model (trunc check : bool) (files : list yr_file) (stopped : bool) (modified failed crashed : bool)
+  : list (list N * bool) * N :=
+  match files with
+  | [] => ([], if crashed then 2 else if modified || failed then 1 else 0)%N
+  | f :: fs =>
+      if stopped then
+        let '(r, e) := yr_model trunc check fs true modified failed crashed in ((y_in f, false) :: r, e)
+      else
+        match y_lib f with
+        | FOk true =>
+            let after := if check then y_in f
+                         else if trunc then y_lib_out f
+                         else y_lib_out f ++ skipn (length (y_lib_out f)) (y_in f) in
+            let '(r, e) := yr_model trunc check fs false true failed crashed in ((after, negb check) :: r, e)
+        | FOk false => let '(r, e) := yr_model trunc check fs false modified failed crashed in ((y_in f, false) :: r, e)
+        | FErr => let '(r, e) := yr_model trunc check fs true modified true crashed in ((y_in f, false) :: r, e)
+        | FPanic | FHang => let '(r, e) := yr_model trunc check fs true modified failed true in ((y_in f, false) :: r, e)
+        end
+  end.
+
+Definition check_yr (trunc check : bool) (files : list yr_file) (exit : N) : bool :=
+  let '(expect, e) := yr_model trunc check files false false false false in
+  N.eqb (N.min exit 2) e &&
+  (fix go (fs : list yr_file) (ex : list (list N * bool)) : bool :=
+     match fs, ex with
+     | [], [] => true
+     | f :: fs', (after, rw) :: ex' => bytes_eqb (y_after f) after && Bool.eqb (y_rewritten f) rw && go fs' ex'
+     | _, _ => false
+     end) files expect.
+
 Inductive case :=
+| CYr (check : bool) (files : list yr_file) (exit : N)
 | CStage (h : hstage) (inp : list token) (res : option (list token))
 | CProc (pt : N) (rules : list (cexpr * action)) (inp : list token) (limit : nat)
         (res : option (list token * bool))
@@ -84,6 +132,7 @@ Definition check_case (c : case) : bool :=
       | None, None => true
       | _, _ => false
       end
+  | CYr check files exit => check_yr yr_fmt_truncates check files exit
   | CStage h inp res =>
       match run_hstage h inp, res with
       | Some a, Some b => tokens_eqb a b
@@ -127,6 +176,8 @@ Definition fmt_same_behaviour (o : fmt_obs) : bool :=
 
 Definition spec_case (c : case) : bool :=
   match c with
+  (* the property: after `yr fmt` a file holds exactly the formatter's output *)
+  | CYr check files exit => check_yr true check files exit
   | CFmt o => fmt_no_crash o && fmt_tokens_preserved o && fmt_flag_truthful o && fmt_idempotent o &&
               fmt_same_behaviour o
   | _ => true
